@@ -4,6 +4,7 @@ import Driver.EngineCmd
 import Driver.TreeCmd
 import Driver.ProvCmd
 import Driver.HashCmd
+import Driver.CollectCmd
 /-! `driver`: one request per line on stdin, one answer per line on stdout. -/
 namespace Driver
 
@@ -13,6 +14,7 @@ structure St where
   tree : TreeSt := {}
   prov : ProvSt := {}
   hash : HashSt := {}
+  collect : CollectSt := {}
 
 def step (st : St) (line : String) : St × String :=
   let (cmd, args) := parseLine line
@@ -31,6 +33,9 @@ def step (st : St) (line : String) : St × String :=
   else if cmd.startsWith "hash." || cmd.startsWith "path." then
     let (s, out) := hashHandle st.hash cmd args
     ({ st with hash := s }, out)
+  else if cmd.startsWith "collect." then
+    let (s, out) := collectHandle st.collect cmd args
+    ({ st with collect := s }, out)
   else if cmd == "ping" then (st, "pong")
   else (st, "bad-op")
 
